@@ -142,6 +142,8 @@ def run_history(res, exe, rng, first, matrix_case=None):
                     op = ("tick", rng.choice([1, 2, 4, 5, 9, 10, 11, 19, 20, 21, 49, 50, 51, 120, 450]))
                 elif x < 0.80:
                     op = ("write", rng.randrange(ne), rng.choice(["same", "other-active", "new", "zero-same", "zero-other", "zero-new"]))
+                elif x < 0.82 and x >= 0.80:
+                    op = ("nohb", rng.choice(pool_nodes + [0]))
                 elif x < 0.84:
                     op = ("pending", rng.choice(["hb", "hb", "zero", "retarget", "none", "zero-other"]))
                 elif x < 0.88:
@@ -173,6 +175,18 @@ def run_history(res, exe, rng, first, matrix_case=None):
                     key = "inv"
                 if err:
                     fail(key, err); return
+            elif op[0] == "nohb":
+                # frames that are no heartbeat: 700h + id without the state byte (DLC 0), and 700h itself (there is no node 0) -
+                # they start or restart no monitoring and notify no state
+                node = op[1]
+                script.append("no heartbeat: %x dlc %d @%d" % (0x700 + node, 0 if node else 1, now))
+                evs = sim.rx(0x700 + node, b"" if node else bytes([5]))
+                err = common(evs)
+                if err is None and (S.cbs(evs, "hbchange") or S.cbs(evs, "hbevent")):
+                    err = "a frame that is no heartbeat caused %r" % [c[:3] for c in S.cbs(evs, "hbchange") + S.cbs(evs, "hbevent")]
+                if err:
+                    fail("not-a-heartbeat", err); return
+                res.counters["frames_that_are_no_heartbeat"] += 1
             elif op[0] == "tick":
                 script.append("tick %d @%d" % (op[1], now))
                 evs = sim.cmd("tick %d" % op[1])
